@@ -36,11 +36,11 @@ TRUSTED = ['Lean 4.33.0 kernel; axioms ⊆ {propext, Classical.choice, Quot.soun
            'parameter: textwrap.TextWrapper._split_chunks (NormalizedString line wrapping) instantiated with the real function']
 RULE = ('corpus of past failures / finding witnesses first, then seeded streams: (codec) strings rich in quotes/backslashes/blanks/": "/"#"/'
         'non-ASCII/controls through encoder, decoder, repr, literal evaluation, and the blank-character table; (value) accepted values of '
-        'every modelled class through setValue, __str__, serialize (incl. NormalizedString wrapping), the real registry.close file, '
+        'every modelled class through setValue, __str__, serialize (incl. NormalizedString wrapping, also of words that start with "#" or end in ":" so that continuation lines look like comments or keys), the real registry.close file, '
         'open_registry and a fresh registration; (text) arbitrary texts through set() incl. rejected ones; (file) hand-built hostile files '
         'through open_registry; (close) whole files with random defaults/help texts; (name) name lists through escape/join/split, '
         'isChannel, isValidRegistryName; (tree) histories of set/setValue/reset/get/save+load(+save again) on global, network and '
-        'channel level against a real tree, with channels of every CHANTYPES prefix, set-to-the-current-value steps and two save/boot rounds; '
+        'channel level against a real tree, with channels of every CHANTYPES prefix, channel names containing the name separator, channel names that differ under lower() but not under casefold(), set-to-the-current-value steps and two save/boot rounds; '
         '(tree-any) the same histories, property oracles only, over every value class (Regexp, Json, Float family, OnlySomeStrings, ...); '
         '(lazy) in-process re-reads incl. every order of reset/set/call/parent-set after a re-read; (live) the same through the commands of the real Config plugin on a live bot; (oracle-only) '
         'classes outside the model. A case is non-trivial when it carries at least one model-branch tag; distinct = distinct input; '
@@ -401,8 +401,12 @@ def stream_codec(I, R, r, n):
 
 def gen_accepted(r, k):
     if k == 'normalized' and r.random() < 0.5:
-        words = [r.choice(['alpha', 'be-ta', 'well-known-fact', 'x' * r.randint(1, 90), 'é', 'a\\b', '--', 'q-', '-', 'foo--bar', '\\' * r.randint(1, 5), gen_str(r, 5)])
-                 for _ in range(r.randint(1, 25))]
+        pool = ['alpha', 'be-ta', 'well-known-fact', 'x' * r.randint(1, 90), 'é', 'a\\b', '--', 'q-', '-', 'foo--bar', '\\' * r.randint(1, 5), gen_str(r, 5),
+                '#limnoria', '#', '#x:', ':', 'k:', ': v']
+        if r.random() < 0.3:
+            # words that would mean something to the reader of the file when a continuation line starts with them
+            pool = ['#limnoria', '#', '##c', '#x:', ':', 'vt.v1:', 'supybot.x:', 'word', 'é']
+        words = [r.choice(pool) for _ in range(r.randint(1, 25))]
         return ' '.join(words)
     if k in STR_CLASSES:
         return gen_value_str(r)
@@ -443,6 +447,14 @@ def gen_text_for(r, k):
 
 def file_value_lines(text):
     return [l for l in text.split('\n') if l and not l.startswith('#')]
+
+def _line_before(text, full):
+    """the non-empty line of the file just above the value line of `full`"""
+    ls = [l for l in text.split('\n') if l.strip() and not l.startswith('#')]
+    for i, l in enumerate(ls):
+        if l.startswith(full + ':'):
+            return ls[i - 1] if i else None
+    return None
 
 def stream_values(I, R, r, nbatches, per_batch):
     """accepted values of every modelled class: setValue -> str/serialize -> real file -> fresh registration"""
@@ -522,10 +534,11 @@ def stream_values(I, R, r, nbatches, per_batch):
                 try:
                     root2.register(name, node2)
                     after = canon_value(node2.value)
-                    if after != stored:
+                    if not any(kk.lower() == full.lower() for kk, _ in cache):
+                        outcome = 'its line is missing from what open_registry read from the file (the line written before it: %r; write raised: %s); reloaded as %r' % (
+                            _line_before(text, full), write_exc[:1], after)
+                    elif after != stored:
                         outcome = 'reloaded as %r' % (after,)
-                    elif not any(kk.lower() == full.lower() for kk, _ in cache):
-                        outcome = 'value line missing from the file (write raised: %s)' % (write_exc[:1],)
                 except reg.InvalidRegistryValue as e:
                     outcome = 'reload rejected the stored text: %s' % e
             collateral = ()
@@ -902,8 +915,11 @@ def stream_validators(I, R, r, n):
 TREE_ALPHA = 'abXY01 "\'\\:#,-é中\x85\t'
 TREE_PR = None
 NETS = ['neta', 'NetB']            # networks the stub world knows
-CHANS = ['#x', '#Y', '&loc', '!Safe', '#b\\']      # every default CHANTYPES prefix of ircutils.isChannel ('+' is not one: see the odd probes)
-PROBES = [(n, c) for n in (None, 'neta', 'netb') for c in (None, '#x', '#y', '&loc', '!safe', '#b\\')]
+# every default CHANTYPES prefix of ircutils.isChannel ('+' is not one: see the odd probes); names with the
+# separator of registry names in them (escaped in the file); names that differ under str.lower() (the key
+# function of the child dictionaries) but not under casefold()
+CHANS = ['#x', '#Y', '&loc', '!Safe', '#b\\', '#python.de', '&local.ops', '#strasse', '#stra\u00dfe']
+PROBES = [(n, c) for n in (None, 'neta', 'netb') for c in [None] + [c.lower() for c in CHANS]]
 
 class _StubIrc(object):
     def __init__(self, network): self.network = network
